@@ -135,4 +135,65 @@ def eofOut : St → EOFOut
 
 def scanner : Scanner St := { init := .pre .normal, step := step, eof := eofOut }
 
+
+/-! ## reads that fail: the real reader, measured
+
+  Where the real lexer+parser stop on a clause that is NOT well-formed depends on the whole grammar.
+  For those reads the correspondence stream measures the real reader ALONE (hook `VerifReadProbe`:
+  lexer+parser over a counting rune reader, no `Stream`, no `ReadTerm`): fed these runes it raises a
+  syntax error after pulling exactly these runes (the last one being its look-ahead), or it runs into
+  the end of the input.  `measured` is the reader that behaves as the table says on the measured rune
+  sequences and as `scanner` everywhere else.  A deterministic reader stops at the same rune whenever
+  it is fed the same runes, so the table is keyed by the runes fed. -/
+
+namespace Measured
+
+inductive Kind
+  | synRune     -- syntax error; the last rune of the entry is the look-ahead it stopped on
+  | synEOF      -- syntax error detected at the end of the input (all runes of the entry consumed)
+  | eofMid      -- the input ended inside a clause and the reader reported io.EOF (end_of_file)
+  deriving DecidableEq
+
+abbrev Table := List (List Nat × Kind)
+
+structure St where
+  acc : List Nat              -- runes fed so far, reversed
+  inner : Option Clause.St    -- `scanner` run alongside; none once it has stopped
+
+def has (tab : Table) (fed : List Nat) (k : Kind) : Bool := tab.any (fun e => e.1 == fed && e.2 == k)
+
+/-- some measured read goes on after these runes -/
+def goesOn (tab : Table) (fed : List Nat) : Bool :=
+  tab.any (fun e => (fed.isPrefixOf e.1 && decide (fed.length < e.1.length)) || (e.1 == fed && e.2 != .synRune))
+
+def step (tab : Table) (st : St) (r : Nat) : St ⊕ ReadOut :=
+  let acc := r :: st.acc
+  let fed := acc.reverse
+  if has tab fed .synRune then .inr .syntaxErr
+  else if goesOn tab fed then
+    .inl { acc := acc, inner := st.inner.bind fun i => match Clause.step i r with | .inl i' => some i' | .inr _ => none }
+  else
+    match st.inner with
+    | some i =>
+      match Clause.step i r with
+      | .inl i' => .inl { acc := acc, inner := some i' }
+      | .inr o => .inr o
+    | none => .inr .syntaxErr
+
+/-- `strict`: what ISO demands of an input that ends inside a clause (a syntax error) instead of what
+    the real reader does (io.EOF, i.e. end_of_file): the specification side of the known finding D27 -/
+def eofOut (tab : Table) (strict : Bool) (st : St) : EOFOut :=
+  let fed := st.acc.reverse
+  if has tab fed .synEOF then .out .syntaxErr
+  else if has tab fed .eofMid then (if strict then .out .syntaxErr else .endOfFile)
+  else
+    match st.inner with
+    | some i => Clause.eofOut i
+    | none => .out .syntaxErr
+
+def scanner (tab : Table) (strict : Bool) : Scanner St :=
+  { init := { acc := [], inner := some (.pre .normal) }, step := step tab, eof := eofOut tab strict }
+
+end Measured
+
 end PrologVerif.Stream.Clause
